@@ -32,9 +32,12 @@ CLAIMED["C05"] = {
             "(priority1, class, accuracy, variance, priority2, GM identity, stepsRemoved, sender, receiving port[, age]) — hence a strict "
             "weak order; the selected Ebest/Erbest is a candidate and no candidate is better; any two presentations of the same "
             "candidates select equal-key candidates; the recommended state equals an independently written Figure 33 for every own "
-            "data set, Ebest, Erbest and prior state; S1 carries Ebest. The unrestricted transitivity claim is refuted by a kernel-checked "
+            "data set, Ebest, Erbest and prior state; S1 carries Ebest; a port handed S1 is afterwards Slave of the sender of the selected "
+            "Announce (also when it was Slave of another port of the same clock) and after every BMCA run over all ports every Slave port "
+            "is bound to the parent the data sets name (s1_binds_port_to_parent, bmca_binds_slaves_to_the_parent). The unrestricted transitivity claim is refuted by a kernel-checked "
             "witness (IEEE's algorithm itself). Tie: exhaustive/random CMP stream, BMCA scenarios through real ports and the mixed stream, "
-            "all compared with the model; independent Rust transcription of Figures 34/35 and an order-permutation oracle on the implementation.",
+            "all compared with the model (port states, the master each Slave port listens to — hook verif_remote_master — and every data set); "
+            "independent Rust transcription of Figures 34/35, an order-permutation oracle and a slave-bound-to-parent oracle on the implementation.",
     "note": "Trusted: Lean kernel; Spec/StateDecision.lean; generators. Instance-level permutation invariance of the whole bmca() call is "
             "validated by the oracle, proved only for the selection function (findBest_perm).",
     "technique": "Lean 4 theorems (order characterisation, fold invariant, case analysis) + differential correspondence through PtpInstance::bmca",
@@ -94,9 +97,11 @@ CLAIMED["C08"] = {
             "later (slave_only_at_runtime); every frame and measurement emitted by any host call is role-guarded "
             "(emitters_guarded: Announce/Sync/Follow_Up/Delay_Resp only from a port that was Master, Delay_Req only from the Slave "
             "port, sync/delay measurements only on the Slave port; BMCA runs emit no frames). Model tied by the inst stream "
-            "(states, frame types, measurements, demobilisations after every op) plus an independent role oracle on the implementation.",
+            "(states, frame types, measurements, demobilisations after every op) plus an independent role oracle on the implementation; "
+            "oracle-only stream kports: the real Kalman servo on every port of one- to three-port instances (E2E / P2P), no host call on a "
+            "port that is not Slave reaches Clock::set_frequency / step_clock through that port.",
     "note": "Trusted: Lean kernel; generators. 'Adjusts the clock' is modelled as 'hands a sync/delay measurement to its filter': the "
-            "servo itself is the host's Filter implementation. The BMCA hypothesis (every port passed exactly once) is what "
+            "servo itself is the host's Filter implementation (what the shipped Kalman servo then does is sampled by kports, not proved). The BMCA hypothesis (every port passed exactly once) is what "
             "PtpInstance::bmca asserts / the borrow checker enforces.",
     "technique": "Lean 4 theorems (invariant by induction over host histories) + differential correspondence + independent role oracle",
 }
